@@ -573,6 +573,33 @@ fn check_project_in(ctx: &Ctx, p: &Proj, rec: &Rec, root: &Path) -> Verdict {
     Ok(())
 }
 
+/// One generated include project run through the binary, nothing checked: for the totality check (C01).
+/// Returns the output, the CPU limit used and a description of the project.
+pub fn run_generated_project(ctx: &Ctx, tape: &[u8], tag: &str) -> Result<(binrun::RunOut, u64, String), Bad> {
+    let mut t = Tape::new(tape);
+    let p = gen_proj(&mut t);
+    let root = ctx.scratch.join(format!("{tag}-{:?}", std::thread::current().id()).replace(['(', ')'], ""));
+    let _ = std::fs::remove_dir_all(&root);
+    let res = (|| {
+        materialise(&root, &p)?;
+        let arg = |s: &str| if p.absolute_args { root.join(s) } else { PathBuf::from(s) };
+        let mut args: Vec<PathBuf> = p.named.iter().map(|(_, s)| arg(s)).collect();
+        args.extend(p.named_dirs.iter().map(|d| arg(d)));
+        let mut opts = RunOpts::files(&args).level(["info", "warning", "error"][t.below(3)]);
+        opts.libs = p.libs.iter().map(|l| arg(l)).collect();
+        opts.cwd = Some(root.to_path_buf());
+        opts.cpu_secs = 30;
+        let out = binrun::run(&ctx.repo_bin, &opts).map_err(|e| Bad::new(format!("INFRA {e}")))?;
+        let mut d = format!("named: {:?}\nnamed directories: {:?}\nlibs: {:?}\nsymlinks: {:?}\n", p.named, p.named_dirs, p.libs, p.symlinks);
+        for f in &p.files {
+            d.push_str(&format!("--- {} includes {:?}\n", f.rel, f.includes));
+        }
+        Ok((out, 30, d))
+    })();
+    let _ = std::fs::remove_dir_all(&root);
+    res
+}
+
 fn case(ctx: &Ctx, tape: &[u8], rec: &Rec) -> Verdict {
     let mut t = Tape::new(tape);
     let p = gen_proj(&mut t);
